@@ -600,6 +600,13 @@ type SaveScenario struct {
 	// also knows sits next to evnode.yaml: "json" (a stale dump of other values), "toml" (not YAML at all).
 	// The documented configuration file is evnode.yaml; what lies next to it must not matter.
 	Sibling string `json:"sibling,omitempty"`
+	// HomeForm: how the home directory is spelled on the command line: "" an absolute path, "rel" a path
+	// relative to the working directory, "tilde" a path with a literal leading "~/" (what a shell leaves alone in
+	// --home=~/dir, and what service files and compose files contain).
+	HomeForm string `json:"home_form,omitempty"`
+	// InitFlow: the file is written the way `init` does it (Load the command line, Validate, set the values,
+	// SaveAsYaml) instead of from a configuration value built in memory.
+	InitFlow bool `json:"init_flow,omitempty"`
 }
 
 func runSaveLoad(sc SaveScenario, tmp string) world.Verdict {
@@ -616,10 +623,46 @@ func runSaveLoad(sc SaveScenario, tmp string) world.Verdict {
 	}
 	resetDefaults()
 	home := freshHome(tmp)
+	labels := []string{"via:" + sc.Via}
+	if sc.HomeForm != "" {
+		// spelled relative to the working directory: a scratch directory for the duration of the case
+		if cwd, err := os.Getwd(); err == nil && os.Chdir(tmp) == nil {
+			defer os.Chdir(cwd)
+		} else {
+			return world.Verdict{Excluded: true}
+		}
+		home = map[string]string{"rel": "rel-home/node", "tilde": "~/tilde-home"}[sc.HomeForm]
+		if home == "" {
+			return world.Verdict{Excluded: true}
+		}
+		cf := filepath.Join(home, config.AppConfigDir, config.ConfigName)
+		_ = os.Remove(cf)
+		if err := os.MkdirAll(filepath.Dir(cf), 0o750); err != nil {
+			panic(err)
+		}
+		// a user home of its own: nothing may be written outside the scratch directories
+		uh := filepath.Join(tmp, "userhome")
+		_ = os.RemoveAll(uh)
+		_ = os.MkdirAll(uh, 0o750)
+		old := os.Getenv("HOME")
+		os.Setenv("HOME", uh)
+		defer os.Setenv("HOME", old)
+		labels = append(labels, "home:"+sc.HomeForm)
+	}
 	written := cloneConfig(pristine)
 	written.RootDir = home
+	if sc.InitFlow {
+		r0 := loadConfig("load", home, nil, nil)
+		if r0.panicV != nil || r0.execErr != nil || r0.loadErr != nil {
+			return world.Fail("C18/init-load", "init: loading the command line --home=%s failed: %v %v %v", home, r0.panicV, r0.execErr, r0.loadErr)
+		}
+		written = r0.cfg
+		if err := written.Validate(); err != nil {
+			return world.Fail("C18/init-validate", "init: the default configuration for --home=%s does not validate: %v", home, err)
+		}
+		labels = append(labels, "written-by-the-init-flow")
+	}
 	nt := false
-	labels := []string{"via:" + sc.Via}
 	for _, kv := range sc.Values {
 		l := leafByPath[kv.Key]
 		v, _ := fieldOf(&written, l)
@@ -730,6 +773,8 @@ func runSaveLoad(sc SaveScenario, tmp string) world.Verdict {
 func genSaveScenario(t *rapid.T) SaveScenario {
 	sc := SaveScenario{Via: rapid.SampledFrom(vias).Draw(t, "via"), Over: rapid.IntRange(0, 3).Draw(t, "over") == 0}
 	sc.Sibling = rapid.SampledFrom([]string{"", "", "", "json", "toml"}).Draw(t, "sibling")
+	sc.HomeForm = rapid.SampledFrom([]string{"", "", "", "rel", "tilde"}).Draw(t, "homeform")
+	sc.InitFlow = rapid.IntRange(0, 2).Draw(t, "initflow") == 0
 	var cand []*leaf
 	for i := range leaves {
 		if !exemptFields[leaves[i].GoName] {
